@@ -325,12 +325,19 @@ def strict_matrix(ctx):
                 continue
             data = header_stream(phys, logical, more_frames=True)
             for integ, mod in (("generic", gparse), ("rdflib", rparse)):
-                for entry in ("flat", "grouped"):
+                for entry in ("flat", "flat-preread-header", "grouped"):
                     for strict in (True, False):
                         try:
                             if entry == "flat":
                                 evs = [(T.event_from_generic if integ == "generic" else T.event_from_rdflib)(x)
                                        for x in mod.parse_jelly_flat(io.BytesIO(data), logical_type_strict=strict)]
+                            elif entry == "flat-preread-header":
+                                # the documented two-step use: the caller reads options and frames itself and hands both over
+                                from pyjelly.parse.ioutils import get_options_and_frames
+                                inp = io.BytesIO(data)
+                                o_, f_ = get_options_and_frames(inp)
+                                evs = [(T.event_from_generic if integ == "generic" else T.event_from_rdflib)(x)
+                                       for x in mod.parse_jelly_flat(inp, frames=f_, options=o_, logical_type_strict=strict)]
                             else:
                                 # what is parsed = the sequence of graphs/datasets handed out, empty ones included
                                 evs = [("sink", tuple(T.norm_events(s[0])))
@@ -340,7 +347,7 @@ def strict_matrix(ctx):
                             got, evs = type(e).__name__, None
                         ctx.observe("strict-matrix-cells")
                         if strict:
-                            want_ok = (logical in FLAT) if entry == "flat" else (logical in GROUPED)
+                            want_ok = (logical in FLAT) if entry.startswith("flat") else (logical in GROUPED)
                             if (got == "ok") != want_ok:
                                 ctx.violation({"clause": "strict-matrix", "cell": [phys, logical, integ, entry, strict],
                                                "summary": f"{integ} {entry} parser, strict: logical type {logical} "
@@ -351,7 +358,7 @@ def strict_matrix(ctx):
                                 ctx.violation({"clause": "non-strict-rejects", "cell": [phys, logical, integ, entry, strict],
                                                "summary": f"{integ} {entry} parser, strict off, logical {logical}: {got}"})
                             else:
-                                results.setdefault((integ, entry), {})[logical] = T.norm_events(evs) if entry == "flat" else evs
+                                results.setdefault((integ, entry), {})[logical] = T.norm_events(evs) if entry.startswith("flat") else evs
                         ctx.case(("strict", phys, logical, integ, entry, strict), True,
                                  sample={"part": "strict-matrix", "physical": phys, "logical": logical, "parser": f"{integ}:{entry}",
                                          "strict": strict, "outcome": got})
